@@ -55,6 +55,11 @@ def run(ctx):
             data = bytes(rnd.randrange(256) for _ in range(n))
             if rnd.random() < 0.3:
                 data = bytes(n)
+            if n <= 5:
+                # a member recorded as EMPTY whose CRC field is not the CRC of nothing: must be reported bad
+                for meth in (b"-lh0-", b"-lh5-", b"-lz5-", b"-lh1-", b"-pm2-"):
+                    cases.append((mk_archive(meth, b"" if meth == b"-lh0-" else data, 0, 1 + rnd.randrange(65535), rnd=rnd), "bad", "empty-wrong-crc"))
+                cases.append((mk_archive(b"-lh0-", b"", 0, 0, rnd=rnd), "good", "empty-valid"))
             good = mk_archive(b"-lh0-", data, n, crc16(data), rnd=rnd)
             cases.append((good, "good", "stored-valid"))
             cases.append((mk_archive(b"-lh0-", data, n, crc16(data) ^ 1, rnd=rnd), "bad", "stored-wrong-crc"))
